@@ -762,7 +762,7 @@ def run(ctx: lib.Ctx) -> None:
     ctx.corpus_cases = len(progs)
     for addr, p in split_join_unit_cases(rng, addrs):
         progs.append(('unit', addr, p))
-    for k in range(ctx.n(420, 8000)):
+    for k in range(ctx.n(420, 5000)):
         p_bad = rng.choice([0.0, 0.03, 0.03, 0.1, 0.25])
         addr, p = gen_program(rng, addrs, rng.choice([4, 8, 12, 20, 30]), p_bad)
         progs.append(('gen', addr, p))
